@@ -6,6 +6,10 @@ import os
 VERIF = os.path.dirname(os.path.dirname(os.path.abspath(__file__)))
 
 CLAIMED = {
+    "C20": dict(cat="exploration", design="§5 C20", engine="glue",
+                text="Generated (definition, single-edit variant) pairs are expanded by the real macros with layout_checks on; the library's compare_layouts is executed on every pair in both directions, on self-pairs and with a missing side, and compared with an expectation computed from our own C-signature tables; VerifyLayout::and is run on all nine pairs.",
+                note="Trusts the generator's C-signature table as the definition of 'C-visible interface'.",
+                tech="runtime monitoring: executed comparison over generated definition pairs with a model oracle"),
     "C09": dict(cat="exploration", design="§5 C09", engine="probe",
                 text="An always-compiling probe is executed and prints the complete 25-rule x 4-class x 2-marker auto-trait matrix (finite, enumerated completely); every cell where the opaque type has a marker its instance handle lacks is a violation unless listed (78 known cells = upstream issue 18). Safe-code race witnesses for the rule families run under Miri's data-race detector and do race.",
                 note="The judgement per cell is the trait solver's (static); the matrix is read out at run time. Witnesses cover rule families, not every cell.",
